@@ -544,15 +544,23 @@ pub fn run_case(line: &str) -> (String, Vec<String>) {
     // results under the other schedules; those that differ from the one-shot run are kept so that
     // the value-level oracles below also see what the cold (byte-wise) scanner paths accepted
     let mut variants: Vec<(String, RunObs)> = vec![];
+    let mut variant_note = String::new();
     for (name, ev, chunk) in scheds.iter().skip(1) {
         let ro = run_parser(&c.fmt, &c.ty, c.cfg, mk(ev.clone()), *chunk);
         let o = ro.ctext(false);
         if o != base_text {
             if variants.is_empty() {
                 fails.push(format!("C01:result depends on the read schedule: one-shot={} {}={}", base_text, name, o));
+                // the model has one answer for every schedule and constructor: a variant that
+                // differs is part of the observation, so that the correspondence breaks too
+                variant_note = format!("|VARIANT:{}={}", name, o.chars().take(160).collect::<String>());
             }
             if ro.fin == "E:panic" {
                 fails.push(format!("C05:parser panicked under schedule {}", name));
+            }
+            if ro.fin.starts_with("E:syn:") && base.fin.starts_with("E:syn:") && ro.fin != base.fin && variants.is_empty() {
+                // same bytes, two different "offending tokens": one of the two locations is wrong
+                fails.push(format!("C08:error location depends on how the bytes arrive: one-shot {} but {} {}", base.fin, name, ro.fin));
             }
             variants.push((name.clone(), ro));
         }
@@ -676,5 +684,5 @@ pub fn run_case(line: &str) -> (String, Vec<String>) {
             }
         }
     }
-    (base_text, fails)
+    (base_text + &variant_note, fails)
 }
